@@ -394,14 +394,25 @@ def run_property(pid, tier='quick', seed=0, jobs=None, only=None, verbose=False,
             elif rep2['ok'] is None:
                 anchors.setdefault('lexical_skipped', []).append(c.cid)
             else:
+                # the same example with longer / literal-looking IDs ('None', '0', 'storyID', 120 characters, ...)
+                from .cells import id_variant
+                ex5 = id_variant(c, ex)
+                if ex5 is not None:
+                    rep5 = replay_inline(c, ex5)
+                    anchors['id_variants'] = anchors.get('id_variants', 0) + 1
+                    if rep5['ok'] is False:
+                        rep = rep5
+                        ex = ex5
+                        rep['info']['sig'] = 'id-variant:' + str(rep['info'].get('sig', 'unclassified'))
                 # the same scenario on other objects with much later message IDs, then once more as it
                 # was: what happened to other objects earlier in the process must not matter
-                replay_inline(c, ex, bump=True)     # history only: its own verdict is not used
-                rep4 = replay_inline(c, ex)
-                anchors['repeat_runs'] = anchors.get('repeat_runs', 0) + 1
-                if rep4['ok'] is False:
-                    rep = rep4
-                    rep['info']['sig'] = 'after-same-scenario-on-other-objects:' + str(rep['info'].get('sig', 'unclassified'))
+                if rep['ok']:
+                    replay_inline(c, ex, bump=True)     # history only: its own verdict is not used
+                    rep4 = replay_inline(c, ex)
+                    anchors['repeat_runs'] = anchors.get('repeat_runs', 0) + 1
+                    if rep4['ok'] is False:
+                        rep = rep4
+                        rep['info']['sig'] = 'after-same-scenario-on-other-objects:' + str(rep['info'].get('sig', 'unclassified'))
         if rep['ok']:
             anchors['passed'] += 1
         else:
@@ -473,6 +484,7 @@ def run_property(pid, tier='quick', seed=0, jobs=None, only=None, verbose=False,
             'anchors': {'run': anchors['run'], 'passed': anchors['passed'],
                         'lexical_variants': anchors.get('lexical_variants', 0),
                         'repeat_runs': anchors.get('repeat_runs', 0),
+                        'id_variants': anchors.get('id_variants', 0),
                         'lexical_variant_errors': anchors.get('lexical_skipped', [])[:20],
                         'failed': anchors['failed'][:20]},
             'known_findings': knowns,
